@@ -63,6 +63,9 @@ C18Holds(e) ==
      e.res.outcome = "new" =>
         Norm(e.res.abs) = [f |-> "L", e |-> [i \in 1..Len(op.args) |->
                               IF "id" \in DOMAIN op.args[i] THEN Norm(ItemAt(op.args[i].id)) ELSE [var |-> op.args[i].var]]]
+  ELSE IF op.k \in {"newctrl", "decodectrl"} THEN
+     \* a control message holds the ten header bytes it was given (shorter input padded with zeros)
+     (e.res.outcome = "new" => e.res.abs.hdr = [i \in 1..10 |-> IF i <= Len(op.hdr) THEN op.hdr[i] ELSE 0])
   ELSE TRUE
 \* C11: after the call - and after the caller has scribbled over everything it passed in or got back -
 \* every object that existed before is observed exactly as before
